@@ -85,6 +85,11 @@ def DropWF (r : Trx) : Prop := 0 ≤ r.dropAmount ∧ 1 ≤ r.dropPeriod
 
 instance (r : Trx) : Decidable (DropWF r) := by unfold DropWF; infer_instance
 
+/-- randomisation thresholds as the FAKE_TOA / FAKE_RSSI / FAKE_CI handlers can set them -/
+def ThrNonneg (r : Trx) : Prop := 0 ≤ r.toaThr ∧ 0 ≤ r.rssiThr ∧ 0 ≤ r.ciThr
+
+instance (r : Trx) : Decidable (ThrNonneg r) := by unfold ThrNonneg; infer_instance
+
 /-- the receiver `r` drops a burst of frame `fn`: drops remain and `fn` is a multiple of the period -/
 def dropDue (r : Trx) (fn : Int) : Bool :=
   decide (0 < r.dropAmount) && decide (r.dropPeriod ∣ fn)
